@@ -286,6 +286,39 @@ def needsParens (parent : Option BOp) (child : HS) : Bool :=
   | some .inter, .bin .union .. => true
   | some _, _ => false
 
+theorem endChain_length {ws c : List Wrap} (h : endChain ws = some c) : c.length = ws.length := by
+  induction ws generalizing c with
+  | nil => simp [endChain] at h
+  | cons w ws ih =>
+    simp only [endChain] at h
+    split at h
+    · cases h; rfl
+    · cases hh : endChain ws with
+      | none => simp [hh] at h
+      | some c' => simp [hh] at h; subst h; simp [ih hh]
+
+theorem endLink_length (ws : List Wrap) (h : HS) : (endLink ws h).1.length = ws.length := by
+  unfold endLink
+  split
+  · split
+    · rename_i c hc; exact endChain_length hc
+    · rfl
+  · rfl
+
+/-- half_space.py:_end_comments_in_parentheses: in front of every ")" of the chain the comment line is ended -/
+def closeParens : List Wrap → HS → List Wrap × HS
+  | [], h => ([], h)
+  | w :: ws, h =>
+      let r := if w.ep.isSome then endLink ws h else (ws, h)
+      let r2 := closeParens r.1 r.2
+      (w :: r2.1, r2.2)
+termination_by ws => ws.length
+decreasing_by
+  simp only [List.length_cons]
+  split
+  · rw [endLink_length]; omega
+  · simp
+
 /-- half_space.py:HalfSpace._link_child. Returns the new link, its target, the (possibly touched) child
     and the id counter. `follow` = "key == left and self.right is not None". -/
 def linkChild (ctr : Nat) (parent : Option BOp) (follow : Bool) (chain : List Wrap) (target : Nat) (child : HS) :
@@ -293,9 +326,10 @@ def linkChild (ctr : Nat) (parent : Option BOp) (follow : Bool) (chain : List Wr
   let cid := child.nodeId.getD 0
   let link := if target = cid then chain else []
   let np := needsParens parent child && !hasParens link
-  let lc := if np || follow then endLink link child else (link, child)
-  if np then (⟨ctr, some [.str [.lp]], some [.str [.rp]]⟩ :: lc.1, cid, lc.2, ctr + 1)
-  else (lc.1, cid, lc.2, ctr)
+  let link := if np then ⟨ctr, some [.str [.lp]], some [.str [.rp]]⟩ :: link else link
+  let lc := closeParens link child
+  let lc := if follow then endLink lc.1 lc.2 else lc
+  (lc.1, cid, lc.2, if np then ctr + 1 else ctr)
 
 /-- half_space.py:HalfSpace._ensure_has_nodes / UnitHalfSpace._ensure_has_nodes -/
 def ensureHasNodes : Nat → HS → HS × Nat
@@ -422,9 +456,35 @@ def updateValues (ctr : Nat) (h : HS) : HS × Nat :=
   let (h, c) := ensureHasNodes ctr h
   (updateAll h, c)
 
-/-- `Cell.format_for_mcnp_input`, geometry part: `_tree.nodes["geometry"] = geometry.node`, then `format`. -/
-def writeGeometry (ctr : Nat) (h : HS) : List GCh × HS × Nat :=
-  let (h, c) := updateValues ctr h
-  (h.fmt, h, c)
+/-- cell.py: `Cell._geometry` together with `Cell._tree["geometry"]`: the chain of `_SHIFT` trees the parser
+    put around the root (`chain`, ending in the node with identity `target`). -/
+structure CG where
+  chain : List Wrap
+  target : Nat
+  hs : HS
+  deriving Repr
+
+/-- cell.py:Cell._parse_geometry -/
+def parseCell (g : GT) : CG := ⟨(chainOf g).1, (chainOf g).2, parseInputNode g⟩
+
+/-- cell.py: the geometry setter (`cell.geometry = h`); the syntax tree is only touched at the next write -/
+def CG.set (c : CG) (h : HS) : CG := { c with hs := h }
+
+/-- cell.py:Cell._update_values, geometry part (repaired): the entry of the cell's tree is kept while it
+    still encloses the geometry's node, otherwise it becomes that node. -/
+def CG.update (ctr : Nat) (c : CG) : CG × Nat :=
+  let (h, n) := updateValues ctr c.hs
+  if c.target = h.nodeId.getD 0 then
+    let r := closeParens c.chain h
+    (⟨r.1, c.target, r.2⟩, n)
+  else (⟨[], h.nodeId.getD 0, h⟩, n)
+
+/-- the geometry part of `Cell._tree.format()` -/
+def CG.fmt (c : CG) : List GCh := wrapFmt c.chain c.hs.fmt
+
+/-- `Cell.format_for_mcnp_input`, geometry part: `_update_values`, then `format`. -/
+def writeGeometry (ctr : Nat) (c : CG) : List GCh × CG × Nat :=
+  let (c, n) := c.update ctr
+  (c.fmt, c, n)
 
 end MontePyVerif.Geometry
